@@ -53,8 +53,9 @@ class Ctx:
         return self.harness
 
     def tlc(self, module, consts, invariants=(), properties=(), spec="Spec", name=None,
-            timeout=900, workers=None, extra=None, heap="24g", coverage=False):
-        cfg = bgen.cfg_text(consts, spec=spec, invariants=invariants, properties=properties)
+            timeout=900, workers=None, extra=None, heap="24g", coverage=False, view=None):
+        cfg = bgen.cfg_text(consts, spec=spec, invariants=invariants, properties=properties,
+                            extra=("VIEW " + view) if view else "")
         r = vlib.run_tlc(self.scratch, module, cfg, workers=workers or NCPU, timeout=timeout,
                          name=name or module, extra=extra, heap=heap, coverage=coverage, files=mc_files())
         self.states += r["states"]
@@ -359,7 +360,7 @@ def family_a(ctx, focus):
     for (rq, rs) in STREAM_KINDS:
         consts = inproc_stream_consts(rq, rs, *budgets)
         r = ctx.tlc("MCInprocStream", consts, invariants=invs, name="L1-inproc-%s" % bgen.kind_of(rq, rs),
-                    timeout=300 if q else 1200)
+                    timeout=300 if q else 1200, view="ViewNoEv")
         if r["violated"]:
             handle_model_counterexample(ctx, r, bgen.kind_of(rq, rs))
         elif not r["ok"] and not r["timed_out"]:
@@ -419,6 +420,42 @@ def family_a(ctx, focus):
                          json.dumps({k: rv[0].get(k) for k in ("prop", "why", "kind", "ev")}))
     run_scripts(ctx, scripts, "main")
     run_pinned(ctx)
+    conformance(ctx, "main")
+
+
+def conf_consts(flags):
+    return {"ReqStreamC": bgen.tla_bool(flags[0]), "RespStreamC": bgen.tla_bool(flags[1]), "NS": 60, "NR": 60, "NH": 60,
+            "MaxCancel": 1, "CancelKinds": '{"cancel", "deadline"}', "Cap": 1, "MaxHdr": 20, "MaxTrl": 20,
+            "Statuses": "{0, 1, 2}", "Closers": '{"cs", "cs2"}', "Known": "{}"}
+
+
+CONF_KINDS = {"bidi": (True, True), "cstream": (True, False), "sstream": (False, True)}
+
+
+def conformance(ctx, name):
+    """B-conf: the recorded in-process stream runs must be behaviours of the L1
+    model (silent internal steps, events matched with their arguments). A run
+    the model cannot explain is MODEL-DRIFT: reported, never a verdict."""
+    d = ctx.scratch.path("run-" + name)
+    files = sorted(os.path.join(d, f) for f in os.listdir(d)
+                   if f.startswith("t") and ".ndjson" in f and not f.endswith((".meta", ".journal")))
+    files = [f for f in files if os.path.getsize(f) > 0]
+    if not files:
+        return
+    r = vlib.conform(ctx.scratch, "TraceInprocStream", files, CONF_KINDS, conf_consts, name,
+                     max_runs=40 if ctx.quick else 400)
+    ctx.states += r["states"]
+    ctx.extra["l1_conformance"] = dict(runs=r["total"], accepted=r["accepted"], rejected=len(r["rejected"]),
+                                       rejected_runs=r["rejected"][:20])
+    for run in r["rejected"][:5]:
+        print("MODEL-DRIFT: run %s of the in-process stream is not a behaviour of InprocStream" % run)
+        ctx.drift.append("run %s not explained by InprocStream" % run)
+    # the binding binds: the same runs with one logged field altered must all be rejected
+    c = vlib.conform(ctx.scratch, "TraceInprocStream", files, CONF_KINDS, conf_consts, name + "-corrupt",
+                     max_runs=15, corrupt=True)
+    ctx.extra["l1_binding_demo"] = dict(corrupted_runs=c["total"], wrongly_accepted=c["accepted"])
+    if c["accepted"]:
+        raise vlib.Infra("B-conf accepted %d corrupted traces: the trace specification does not bind" % c["accepted"])
 
 
 def half_duplex_ok(actions):
